@@ -106,11 +106,34 @@ def parseHOp (s : String) : Option HOp :=
     | _ => none
   else none
 
+/-! caller-queued activations: `G <rules> <op> …`, op = an `H` op | `a<rule>:<sal>:<actg|->:<nl>:<h|->` -/
+inductive GOp where
+  | h (o : HOp)
+  | add (rule : Nat) (sal : Int) (actg : Option Nat) (nl : Bool) (h : Option Nat)
+
+def optNat (s : String) : Option (Option Nat) := if s = "-" then some none else s.toNat?.map some
+
+def parseGOp (s : String) : Option GOp :=
+  if s.startsWith "a" then
+    match (s.drop 1).toString.splitOn ":" with
+    | [r, sal, g, nl, h] => do pure (.add (← r.toNat?) (← sal.toInt?) (← optNat g) (nl == "1") (← optNat h))
+    | _ => none
+  else (parseHOp s).map .h
+
 def showHRes (op : HOp) : HRes → String
   | .handle h => s!"i{h}"
   | .ok b => (match op with | .retract _ => "x" | _ => "u") ++ (if b then "1" else "0")
   | .fired names => "F" ++ showFired names
   | .unit => "z"
+
+def gstep (e : Inc) : GOp → Inc × String
+  | .add r s g nl h => (e.addAct r s g nl h, "a")
+  | .h .fire => let r := e.fireAllM; (r.1, "F" ++ showFired r.2)
+  | .h o => let r := e.hstep o; (r.1, showHRes o r.2)
+
+def gtrace (e : Inc) : List GOp → List String
+  | [] => []
+  | o :: os => (gstep e o).2 :: gtrace (gstep e o).1 os
 
 def parseFiredNames (s : String) : Option (List Nat) :=
   if s = "-" then some [] else
@@ -236,6 +259,10 @@ def modelLine (line : String) : String :=
       let e : Inc := { rules := rs }
       joinSp ("ok" :: (hops.zip (e.htrace hops)).map (fun (o, r) => showHRes o r))
     | _, _ => "bad-case"
+  | "G" :: rules :: ops =>
+    match parseList parseCRule rules, ops.mapM parseGOp with
+    | some rs, some gops => joinSp ("ok" :: gtrace { rules := rs } gops)
+    | _, _ => "bad-case"
   | "A" :: ts =>
     match parseOps 0 ts with
     | some ops =>
@@ -336,6 +363,46 @@ def staleBeforeFire (rules : List CRule) : List (Nat × Int × Int) → Bool →
     staleBeforeFire rules facts' (dirty || lost) ops rs
   | _, _, _, _ => false
 
+/-! ### oracle of the `G` cases: "at most one rule of an activation group fires" between resets, on the fired names of `fire_all`.
+Engine-made activations carry no group.  A rule that no inserted / updated fact of the case satisfies gets activations from the caller
+only; a no-loop rule gets at most ONE firing per reset period out of the engine's own activations (clause no_loop_once).  So for a
+rule `r` whose caller-queued grouped activations all carry the one group `x`, at least
+`firings(r) − ungrouped activations queued for r so far − (1 if some fact satisfies r)` firings of the period came from group `x`
+(rules that are satisfiable and not no-loop are left out); the sum over the rules of `x` must not exceed 1.  Also: `fire_all` stops at
+its bound. -/
+def gSatisfiable (r : CRule) (gops : List GOp) : Bool :=
+  gops.any (fun o => match o with
+    | .h (.insert a b) => cMatches r (0, a, b)
+    | .h (.update _ a b) => cMatches r (0, a, b)
+    | _ => false)
+
+def gGroupsOf (i : Nat) (gops : List GOp) : List Nat :=
+  (gops.filterMap (fun o => match o with | .add r _ (some x) _ _ => if r == i then some x else none | _ => none)).eraseDups
+
+def groupedLower (rs : List CRule) (gops : List GOp) (ung fired : List Nat) (x : Nat) : Nat :=
+  ((enumFrom 0 rs).map (fun (i, r) =>
+    if gGroupsOf i gops != [x] then 0
+    else if gSatisfiable r gops && !r.noLoop then 0
+    else fired.count i - (ung.count i + (if gSatisfiable r gops then 1 else 0)))).foldl (· + ·) 0
+
+/-- walks the history: `ung` = rules of the ungrouped activations queued so far, `fired` = names fired since the last reset -/
+def groupBad (rs : List CRule) (gops : List GOp) : Nat → List Nat → List Nat → List (GOp × String) → Option String
+  | _, _, _, [] => none
+  | k, ung, fired, (op, tok) :: rest =>
+    match op with
+    | .add r _ none _ _ => groupBad rs gops (k + 1) (r :: ung) fired rest
+    | .add _ _ (some _) _ _ => groupBad rs gops (k + 1) ung fired rest
+    | .h .reset => groupBad rs gops (k + 1) ung [] rest
+    | .h .fire =>
+      match parseFiredNames (tok.drop 1).toString with
+      | none => some "unparsable-observation"
+      | some ns =>
+        let fired' := fired ++ ns
+        if ns.length > incBound then some s!"fire_all_bounded@{k}"
+        else if (gops.filterMap (fun o => match o with | .add _ _ (some x) _ _ => some x | _ => none)).eraseDups.any (fun x => groupedLower rs gops ung fired' x > 1) then some s!"activation_group_twice@{k}"
+        else groupBad rs gops (k + 1) ung fired' rest
+    | _ => groupBad rs gops (k + 1) ung fired rest
+
 def oracleLine (line : String) : String :=
   match line.splitOn " | " with
   | [c, o] =>
@@ -379,6 +446,23 @@ def oracleLine (line : String) : String :=
                 ++ (if all.length > 0 then ["nontrivial"] else []))
           | none => "fail unparsable-observation"
         | _ => if o.trimAscii.toString.startsWith "panic" then "fail fire_all_returns:panic:H" else "fail unparsable-observation"
+      | _, _ => "bad-input"
+    | "G" :: rules :: ops =>
+      match parseList parseCRule rules, ops.mapM parseGOp with
+      | some rs, some gops =>
+        match tokens o with
+        | ["hang"] => "fail fire_all_bounded:hang:G"
+        | "ok" :: toks =>
+          if toks.length != gops.length then "fail unparsable-observation" else
+          match groupBad rs gops 0 [] [] (gops.zip toks) with
+          | some msg => s!"fail {msg}"
+          | none =>
+            let fires := toks.filter (·.startsWith "F")
+            joinSp (["ok", "engine_G", s!"fire_calls_{fires.length}"]
+              ++ (if gops.any (fun o => match o with | .add _ _ (some _) _ _ => true | _ => false) then ["grouped_activation"] else [])
+              ++ (if gops.any (fun o => match o with | .h .reset => true | _ => false) then ["reset"] else [])
+              ++ (if fires.any (· != "F-") then ["nontrivial"] else []))
+        | _ => if o.trimAscii.toString.startsWith "panic" then "fail fire_all_returns:panic:G" else "fail unparsable-observation"
       | _, _ => "bad-input"
     | "K" :: rules :: ops =>
       match parseList parseKRule rules, ops.mapM parseHOp with
